@@ -51,8 +51,20 @@ def families(k, antichains_only):
     return out
 
 
+# junction-tree-structured clique sets whose region graph is four levels deep (binary attributes, <= 128 joint cells)
+DEEP = {
+    'abcd-bcde-cdf-dg': [('A', 'B', 'C', 'D'), ('B', 'C', 'D', 'E'), ('C', 'D', 'F'), ('D', 'G')],
+    'window4x7': [('A', 'B', 'C', 'D'), ('B', 'C', 'D', 'E'), ('C', 'D', 'E', 'F'), ('D', 'E', 'F', 'G')],
+    'window4x6': [('A', 'B', 'C', 'D'), ('B', 'C', 'D', 'E'), ('C', 'D', 'E', 'F')],
+    'window3x6': [('A', 'B', 'C'), ('B', 'C', 'D'), ('C', 'D', 'E'), ('D', 'E', 'F')],
+    'caterpillar': [('A', 'B', 'C'), ('B', 'C', 'D'), ('C', 'E'), ('C', 'F'), ('D', 'G')],
+}
+
+
 def jobs(tier, seed):
     out = []
+    for name in DEEP:
+        out.append({'deep': name, 'seed': seed, 'tier': tier})
     f3 = families(3, False)
     for i in range(0, len(f3), 4):
         out.append({'k': 3, 'lo': i, 'hi': min(len(f3), i + 4), 'anti': False, 'seed': seed, 'tier': tier})
@@ -169,8 +181,52 @@ def run_family(acc, job, fam, present):
                         acc.violate(case, {'kind': kd, 'oracle': 'factor-graph'}, 'cliques %r: %s' % (cliques, msg))
 
 
+def run_deep(acc, job):
+    """RIP structures with deep region graphs; damping is a constructor parameter GBP must not depend on"""
+    from mbi import Domain, RegionGraph
+    name = job['deep']
+    cliques = DEEP[name]
+    attrs = sorted({a for c in cliques for a in c})
+    sizes = [2] * len(attrs)
+    dom = Domain(attrs, sizes)
+    assert O.gyo_acyclic(cliques)
+    for present in ('sorted', 'reversed'):
+        cl = [tuple(c) if present == 'sorted' else tuple(reversed(c)) for c in cliques]
+        for minimal in (True, False):
+            for damping in (0.5, 0.2, 0.8):
+                for pclass in ('a', 'b'):
+                    total = 10.0 if pclass == 'a' else 1.0
+                    rg = RegionGraph(dom, list(cl), total=total, minimal=minimal, convex=False, iters=80, damping=damping)
+                    regions = list(rg.cliques)
+                    rng = np.random.RandomState(zlib.crc32(repr((job['seed'], name, present, pclass)).encode()) % 2 ** 31)
+                    gen = set(regions) if pclass == 'b' else set(cl)
+                    for h in (1, 2):
+                        pots = potentials_for(dom, regions, gen, 1.0, rng)
+                        mu = rg.belief_propagation(pots)
+                        case = {'oracle': 'region-graph', 'deep': name, 'present': present, 'minimal': minimal, 'damping': damping, 'pclass': pclass,
+                                'calls': h, 'seed': job['seed'], 'tier': job['tier']}
+                        acc.case(case)
+                        acc.states += 1
+                        acc.transitions += 1
+                        acc.traces += 1
+                        fails = []
+                        what = 'RegionGraph(convex=False, minimal=%s, damping=%g, iters=80) call %d' % (minimal, damping, h)
+                        validity(mu, regions, total, what, fails)
+                        if not fails:
+                            w = exactness(mu, pots, regions, attrs, sizes, total, what, fails)
+                            acc.maximum('gbp_deep_error', w, case)
+                        acc.outcome('gbp-deep:%s' % ('ok' if not fails else 'FAIL'))
+                        for kd, msg in fails:
+                            acc.violate(case, {'kind': kd, 'oracle': 'region-graph', 'deep': True, 'damping': damping}, 'cliques %r: %s' % (cl, msg))
+    acc.sample({'deep': name, 'cliques': [list(c) for c in cliques], 'damping': [0.5, 0.2, 0.8], 'minimal': [True, False]})
+
+
 def run_job(job):
     acc = Acc()
+    if 'deep' in job:
+        with M.quiet():
+            run_deep(acc, job)
+        return acc
     fams = families(job['k'], job['anti'])
     for i in range(job['lo'], job['hi']):
         for present in ('sorted', 'reversed'):
@@ -186,6 +242,14 @@ def replay(case):
     from .. import core
     core.MAX_VIOL_PER_JOB = 10 ** 6
     acc = Acc()
+    if 'deep' in case:
+        with M.quiet():
+            run_deep(acc, {'deep': case['deep'], 'seed': case['seed'], 'tier': case['tier']})
+        keys = ('present', 'minimal', 'damping', 'pclass', 'calls')
+        vs = [v for v in acc.violations if all(v['case'].get(k) == case.get(k) for k in keys)]
+        for v in vs:
+            print(v['msg'])
+        return vs
     fam = tuple(tuple(c) for c in case['fam'])
     with M.quiet():
         run_family(acc, {'k': case['k'], 'seed': case['seed'], 'tier': case['tier']}, fam, case['present'])
